@@ -54,26 +54,22 @@ def validate_f(chk, traces_by_set, nproc=8, chunks_per_set=None, key_of=None, ti
                             workdir=os.path.join(chk.workdir, "tlc%03d" % i), env={"TRACE": p},
                             workers=1, timeout=timeout, xmx="3g"))
     res = vlib.tlc_many(tl_jobs, maxproc=nproc)
-    import re
     for (setno, cfg, p), r in zip(jobs, res):
         nlines = sum(1 for ln in open(p) if ln.strip())
-        done = [ln for ln in r["prints"] if ln.startswith('<<"TRACE_DONE"')]
-        if r["rc"] != 0 or not done:
+        d = vlib.parse_done(r["out"])
+        if r["rc"] != 0 or d is None:
             raise vlib.ToolError("TLC did not finish trace %s (rc=%s)\n%s" % (p, r["rc"], r["out"][-3000:]))
-        m = re.match(r'<<"TRACE_DONE", (\d+),', done[0])
-        if int(m.group(1)) != nlines:
-            raise vlib.ToolError("TLC consumed %s of %d events of %s" % (m.group(1), nlines, p))
+        if d["n"] != nlines:
+            raise vlib.ToolError("TLC consumed %s of %d events of %s" % (d["n"], nlines, p))
         chk.add_tlc(r, traces=1)
         evs = [json.loads(x) for x in open(p) if x.strip()]
         for e in evs:
             kinds[e["ev"]] = kinds.get(e["ev"], 0) + 1
         if evs:
             chk.sample(dict(set=setno, event=brief(evs[0])))
-        for ln in r["prints"]:
-            mm = vlib.MISMATCH_RE.match(ln)
-            if mm:
-                idx = int(mm.group(1))
-                all_mism.append(dict(set=setno, trace=p, index=idx, ev=mm.group(2), info=mm.group(3), event=evs[idx - 1]))
+        infos = vlib.mismatch_infos(r["out"])
+        for idx in d["lists"].get("mismatches", []):
+            all_mism.append(dict(set=setno, trace=p, index=idx, ev=evs[idx - 1]["ev"], info=infos.get(("MISMATCH", idx), ""), event=evs[idx - 1]))
     chk.add("events_judged_by_spec", total_events)
     chk.cov.setdefault("event_kinds", {})
     for k, v in kinds.items():
@@ -357,18 +353,16 @@ def validate_judged(chk, module, jobs, nproc=8, timeout=2400, chunk=0):
     mism, mags, judged = [], [], 0
     for (setno, p), r in zip(meta, res):
         evs = [json.loads(x) for x in open(p) if x.strip()]
-        done = [ln for ln in r["prints"] if ln.startswith('<<"TRACE_DONE", %d,' % len(evs))]
-        if r["rc"] != 0 or not done:
+        d = vlib.parse_done(r["out"])
+        if r["rc"] != 0 or d is None or d["n"] != len(evs):
             raise vlib.ToolError("%s did not finish %s (rc=%s):\n%s" % (os.path.basename(module), p, r["rc"], r["out"][-3000:]))
-        m = re.search(r'"judged", (\d+)', done[0])
-        judged += int(m.group(1)) if m else 0
+        judged += d["nums"].get("judged", 0)
         chk.add_tlc(r, traces=1)
-        for ln in r["prints"]:
-            mm = re.match(r'^<<"(MISMATCH|MAGNITUDE)", (\d+), "?([^",]*)"?, (.*)>>$', ln)
-            if mm:
-                idx = int(mm.group(2))
-                d = dict(set=setno, index=idx, ev=mm.group(3), info=mm.group(4), event=evs[idx - 1])
-                (mism if mm.group(1) == "MISMATCH" else mags).append(d)
+        infos = vlib.mismatch_infos(r["out"])
+        for idx in d["lists"].get("mismatches", []):
+            mism.append(dict(set=setno, index=idx, ev=evs[idx - 1]["ev"], info=infos.get(("MISMATCH", idx), ""), event=evs[idx - 1]))
+        for idx in d["lists"].get("magnitude", []):
+            mags.append(dict(set=setno, index=idx, ev=evs[idx - 1]["ev"], info=infos.get(("MAGNITUDE", idx), ""), event=evs[idx - 1]))
         if evs:
             chk.sample(dict(set=setno, event=brief(evs[min(3, len(evs) - 1)])))
     chk.add("events_judged_by_spec", judged)
